@@ -25,6 +25,7 @@ DEFAULT_FEATURES = {
     "explicit_false": True,        # D3: optional="false" etc. spelled out
     "comments": True,
     "comment_special_chars": True,   # D13: backslashes / triple quotes in comments
+    "empty_enum": True,              # D9: an <enum> without values
 }
 
 FIELD_NAMES = [
@@ -159,10 +160,13 @@ class _Gen:
 
     # -- enums -----------------------------------------------------------------
     def gen_enum(self, dir_, name=None, nmin=1, nmax=6):
+        mandatory = name is not None          # PacketFamily / PacketAction need members
         name = name or self.new_type_name(dir_)
         typ = self.pick(INT_TYPES)
         lim = INT_LIMIT[typ]
         n = self.draw(st.integers(nmin, nmax))
+        if not mandatory and self.f["empty_enum"] and self.boolean(0.06):
+            n = 0
         used_names, used_ords, values = set(), set(), []
         for _ in range(n):
             vn = _uniq_name(self.draw, MEMBER_WORDS, used_names, "member")
